@@ -183,7 +183,11 @@ def make_case(rng, b, fam, orient, mode, fractions=(1.0, 0.75, 0.5, 0.25), N=N_D
     return rec, traj, structure, dict(site_radius=kw_radius, site_inner_fraction=f)
 
 
-def run_case(rec, traj, structure, kw, species='Li'):
+def run_case(rec, traj, structure, kw, species='Li', rng=None):
+    if rng is not None:
+        gen.perturb(traj, rng)
+        if rng.random() < 0.3:
+            traj.transitions_between_sites(structure, species, **kw)      # asked twice: the second answer is judged
     tr = traj.transitions_between_sites(structure, species, **kw)
     rec['hist'] = hist_of(tr.states, tr.inner_states)
     return rec, tr
